@@ -35,6 +35,7 @@ def check_trace(ctx, module, cfg_impl, cfg_prop, events, on_reject, drop="event"
         # the prefix accepted with the Impl layer on is accepted by the Prop layer too
         ev = ev[_block_bounds(ev, n)[0]:]
     rejected = 0
+    dups = 0
     for _ in range(max_rounds):
         ok, n, r = tlc.validate_trace(module, cfg_prop or cfg_impl, ev, env=env, timeout=timeout, xmx=xmx)
         if ok:
@@ -44,6 +45,11 @@ def check_trace(ctx, module, cfg_impl, cfg_prop, events, on_reject, drop="event"
         lo, hi = _block_bounds(ev, n) if drop == "block" else (n, n + 1)
         same = on_reject(ev[n], n, ev[lo:hi])
         rejected += 1
+        if same == "dup":
+            dups += 1
+            if dups >= 6:
+                ctx.note("%s: the same violation signatures keep repeating; remaining trace not examined" % label)
+                break
         if drop == "block":
             # everything before this block was accepted and blocks are independent (each starts from Reset): continue after it
             ev = ev[hi:]
